@@ -1118,6 +1118,42 @@ def F3F4(F, rep, FL):
            'uncompressedFile2CompressedFile: ' + str(bad), nontrivial=True)
 
 
+def F4s(F, rep):
+    """the container size the application configures is the size the stream cuts by: File::setDefaultLogContainerSize hands its parameter
+    on unchanged, UncompressedFile::setDefaultLogContainerSize stores its parameter unchanged, the getters return the member - a setter
+    that rounds, clamps or scales makes containers larger (or differently cut) than configured"""
+    sites = []
+    fset = [f for f in F.functions.get(FILE + '::setDefaultLogContainerSize', [])]
+    uset = [f for f in F.functions.get('Vector::BLF::UncompressedFile::setDefaultLogContainerSize', [])]
+    for fn in fset:
+        pid = fn['params'][0]['id'] if fn['params'] else None
+        calls = [n for n in walk(fn['body']) if n.get('k') == 'Call' and n.get('fn') == 'setDefaultLogContainerSize' and recv_root(n) == 'm_uncompressedFile']
+        ok = bool(calls) and all(local_id(deep_resolve(c['args'][0], fn)) == pid for c in calls) and not Flow_modified(fn, pid)
+        sites.append((fn, ok, 'File::setDefaultLogContainerSize passes %s to the stream' %
+                      ('its parameter unchanged' if ok else ('a parameter it has changed before' if Flow_modified(fn, pid) else
+                       '[%s], not its parameter as given' % ', '.join(expr_str(deep_resolve(c['args'][0], fn)) for c in calls)))))
+    for fn in uset:
+        pid = fn['params'][0]['id'] if fn['params'] else None
+        asg = [n for n in walk(fn['body']) if n.get('k') == 'Bin' and n.get('op') == '=' and mname(n['lhs']) == 'm_defaultLogContainerSize']
+        ok = bool(asg) and all(local_id(deep_resolve(a['rhs'], fn)) == pid for a in asg) and not Flow_modified(fn, pid)
+        sites.append((fn, ok, 'UncompressedFile::setDefaultLogContainerSize stores %s' %
+                      ('its parameter unchanged' if ok else '[%s], not its parameter as given' % ', '.join(expr_str(deep_resolve(a['rhs'], fn)) for a in asg))))
+    for fn, ok, what in sites:
+        rep.count('F4')
+        rep.ob('F4', 'configured-size|%s' % short(fn['name']), ok, rep.fn_site(fn), what, nontrivial=True)
+    if len(sites) < 2:
+        raise AnalysisBroken('F4: the two setDefaultLogContainerSize functions were not found')
+
+
+def Flow_modified(fn, vid):
+    for n in walk(fn['body']):
+        if n.get('k') == 'Bin' and n.get('op') in ('=', '+=', '-=', '*=', '/=', '|=', '&=', '^=', '<<=', '>>=') and (strip_all_casts(n['lhs']) or {}).get('id') == vid:
+            return True
+        if n.get('k') == 'Un' and n.get('op') in ('++', '--') and (strip_all_casts(n['sub']) or {}).get('id') == vid:
+            return True
+    return False
+
+
 def _method_of_path(evs):
     """value of the compression method a path was dispatched on: a switch case, or an `== K` comparison taken / `!= K` not taken"""
     case = None
@@ -1444,7 +1480,28 @@ def _declared_end_excess(arg, decls, marks, hdr_var):
         if isinstance(m_, dict) and m_.get('k') == 'Ref' and m_.get('id') in marks and isinstance(o_, dict) and o_.get('k') == 'Member' and \
                 o_.get('name') == 'objectSize' and local_id(o_.get('base')) == hdr_var:
             return marks[m_['id']]
+    for m_, o_ in ((a, b), (b, a)):
+        if isinstance(m_, dict) and m_.get('k') == 'Ref' and m_.get('id') in marks:
+            # start mark + something that is not the declared size of the peeked header
+            return marks[m_['id']].add(term='NOT-objectSize:' + expr_str(o_), k=1).add(term='objectSize', k=-1)
     return None
+
+
+def HS_of(F):
+    return None
+
+
+def good_branch_like(e):
+    """the stream-state test behind the header peek (normal end of data) - its exit is a return, not a throw"""
+    return any(x.get('k') == 'Call' and x.get('fn') in ('good', 'eof') for x in walk(e['n']))
+
+
+def _ptr_null_any(cond):
+    c = strip_all_casts(cond)
+    if isinstance(c, dict) and c.get('k') == 'Un' and c.get('op') == '!':
+        s_ = strip_all_casts(c['sub'])
+        return isinstance(s_, dict) and s_.get('k') in ('Ref', 'Call')
+    return False
 
 
 def S2S3(F, rep, FL, rules):
@@ -1474,6 +1531,48 @@ def S2S3(F, rep, FL, rules):
                 bad = 'leaves by exception'
             if any(e['ev'] == 'assign' for e in i['evs'] if e['ev'] == 'assign' and 'Running' in str(_assign_target(e['n']))):
                 bad = 'clears the running flag'
+        # S5: in front of the factory the only way out by exception is the "declares less than a header" guard; S6: an object is skipped
+        # by its declared size for one reason only - the factory does not know its type.  Any other test of what the file says about the
+        # object (its headerSize, version, type ranges) ends the stream at, or silently drops, an object the rest of the code could handle
+        rep.count('S2')
+        s5 = None
+        for i in infos:
+            evs = i['evs']
+            fact = [k_ for k_, e in enumerate(evs) if e['ev'] == 'call' and e['n'].get('fn') == 'createObject']
+            brs = [e for e in (evs[:fact[0]] if fact else evs) if e['ev'] == 'branch']
+            if not fact and isinstance(i['out'], tuple) and i['out'][0] == 'throw':
+                # thrown before the factory was asked
+                last = brs[-1] if brs else None
+                hs = HS_of(F)
+                ok_guard = False
+                if last is not None:
+                    at = _cmp_atoms(deep_resolve(last['n'], fn))
+                    ok_guard = len(at) == 1 and {at[0][0], at[0][2]} in ({'objectSize', 'calculateHeaderSize()'},) or \
+                        (len(at) == 1 and 'objectSize' in (at[0][0], at[0][2]) and any(str(x).endswith('calculateHeaderSize()') for x in (at[0][0], at[0][2])))
+                if not ok_guard and last is not None and not good_branch_like(last):
+                    s5 = 'throws in front of the factory on [%s] (line %s): an object that could be decoded or skipped ends the stream instead' % (expr_str(last['n']), last.get('l'))
+            if i['unknown'] and i['out'] in ('normal', 'return'):
+                nulls = [e for e in i['guards'] if any(x.get('lit') == 'null' for x in walk(e['n'])) and e['taken']]
+                sp = [e for e in i['guards'] if e['taken'] and _ptr_null_any(e['n'])]
+                if not nulls and not sp:
+                    s5 = ('skips an object by its declared size on a path that never found createObject() == nullptr (%s): objects of a known type are '
+                          'dropped' % fmt_events(evs, limit=12))
+        # the pointer whose null-ness decides "skip" is what the factory returned for the peeked type - unconditionally
+        for n_ in walk(fn['body'], into_lambda=False):
+            if n_.get('k') == 'Decl':
+                for v_ in n_['vars']:
+                    if (v_.get('t') or '').endswith('*') and v_.get('init') is not None and any(x.get('k') == 'Call' and x.get('fn') == 'createObject' for x in walk(v_['init'])):
+                        i_ = strip_all_casts(v_['init'])
+                        if not (isinstance(i_, dict) and i_.get('k') == 'Call' and i_.get('fn') == 'createObject'):
+                            s5 = s5 or ('asks the factory only under a condition (%s = %s, line %s): objects of a type the factory knows are skipped as if unknown'
+                                        % (v_['name'], expr_str(v_['init'])[:120], n_.get('l')))
+                        else:
+                            a0 = strip_all_casts(deep_resolve(i_['args'][0], fn)) if i_.get('args') else None
+                            if not (isinstance(a0, dict) and a0.get('k') == 'Member' and a0.get('name') == 'objectType'):
+                                s5 = s5 or 'asks the factory for something other than the peeked objectType (%s)' % expr_str(i_['args'][0] if i_.get('args') else i_)
+        rep.ob('S2', 'skip-and-throw-reasons', s5 is None, rep.fn_site(fn),
+               'in front of the factory the worker throws only for objectSize < calculateHeaderSize(), and skips only what the factory does not know'
+               if s5 is None else 'uncompressedFile2ReadWriteQueue ' + s5, nontrivial=True)
         rep.ob('S2', 'unknown-skip', bad is None and bool(un), rep.fn_site(fn),
                'unknown object type: the stream ends at object start + ohb.objectSize and the function returns normally (%d path(s))' % len(un)
                if bad is None and un else 'unknown object type path %s' % (bad or 'not found'), nontrivial=True)
@@ -1547,15 +1646,25 @@ def T1(F, rep, FL):
     # dominating lower bound on ohb.objectSize established by a comparison whose violating side leaves by throw/return
     def lower_bound(i):
         lo = 0
+        atoms_ = []
         for e in i['guards']:
-            c = strip(deep_resolve(e['n'], fn))
+            c0 = strip(deep_resolve(e['n'], fn))
+            work = [(c0, bool(e['taken']))]
+            while work:
+                c, tk = work.pop()
+                while isinstance(c, dict) and (c.get('k') in ('Cast', 'Paren') or (c.get('k') == 'Un' and c.get('op') == '!')):
+                    if c.get('k') == 'Un':
+                        tk = not tk
+                    c = strip(c['sub'])
+                if isinstance(c, dict) and c.get('k') == 'Bin' and c.get('op') == '||' and not tk:
+                    work += [(c['lhs'], False), (c['rhs'], False)]      # (a || b) is false: both are false
+                elif isinstance(c, dict) and c.get('k') == 'Bin' and c.get('op') == '&&' and tk:
+                    work += [(c['lhs'], True), (c['rhs'], True)]        # (a && b) is true: both are true
+                elif isinstance(c, dict) and c.get('k') == 'Bin' and c.get('op') in ('<', '<=', '>', '>='):
+                    atoms_.append((c, tk))
+        for c, tk_ in atoms_:
+            e = {'taken': tk_}
             flip = False
-            while isinstance(c, dict) and (c.get('k') == 'Cast' or (c.get('k') == 'Un' and c.get('op') == '!')):
-                if c.get('k') == 'Un':
-                    flip = not flip
-                c = strip(c['sub'])
-            if not (isinstance(c, dict) and c.get('k') == 'Bin' and c.get('op') in ('<', '<=', '>', '>=')):
-                continue
             l, r = strip_all_casts(c['lhs']), strip_all_casts(c['rhs'])
             def is_os(x):
                 return isinstance(x, dict) and x.get('k') == 'Member' and x.get('name') == 'objectSize' and local_id(x.get('base')) == i['hdr_var']
@@ -1603,7 +1712,10 @@ def T1(F, rep, FL):
             if i.get('repos') == 'declared-end':
                 # continue at (object start) + objectSize: needs the start mark at offset 0 and a positive lower bound on objectSize
                 if end.c != 0 or end.t != {'objectSize': 1}:
-                    bad = 'known-type path continues at offset [%r], not at object start + objectSize' % end
+                    other = [t_ for t_ in end.t if str(t_).startswith('NOT-objectSize:')]
+                    bad = ('known-type path continues at object start + %s, not at the declared end start + objectSize: bytes between the two (the '
+                           'beginning of the next object, when fewer fill bytes follow than expected) are swallowed' % other[0].split(':', 1)[1]) if other else \
+                        'known-type path continues at offset [%r], not at object start + objectSize' % end
                     break
                 if lo <= 0:
                     bad = ('known-type path continues at the declared end of the object; with objectSize unconstrained (lower bound %d) the net advance '
@@ -1754,6 +1866,31 @@ def B7(F, rep):
                             if x.get('k') == 'Call' and x.get('fn') == 'logContainerContaining')
                 if not found:
                     problems.append('the container is not the one logContainerContaining(%s) returned' % pos)
+                else:
+                    # ... looked up for the position of *this* step: the container the iterators belong to is a local that the same loop
+                    # iteration initialises from the lookup.  A container kept in a member (or looked up only when the position has run off
+                    # its end) is stale as soon as seekg() moves the position back: the offset goes negative
+                    citer = [a_ for a_ in n['args'] if 'uncompressedFile' in _norm(expr_str(a_))]
+                    root = None
+                    for x in walk(citer[0]) if citer else ():
+                        if x.get('k') == 'Member' and x.get('name') == 'uncompressedFile':
+                            b_ = strip_all_casts(x.get('base'))
+                            root = b_
+                            for _ in range(4):
+                                if isinstance(root, dict) and root.get('k') == 'Call' and root.get('ck') == 'operator' and root.get('args'):
+                                    root = strip_all_casts(root['args'][0])
+                                elif isinstance(root, dict) and root.get('k') == 'Un' and root.get('op') == '*':
+                                    root = strip_all_casts(root['sub'])
+                            break
+                    if isinstance(root, dict) and root.get('k') == 'Member':
+                        problems.append('the container the copy works on is the member %s, not the result of a lookup for the current position: after a '
+                                        'seekg() back over its start the offset is negative' % root.get('name'))
+                    elif isinstance(root, dict) and root.get('k') == 'Ref' and root.get('name') in decls:
+                        i_ = strip_all_casts(decls[root['name']].get('init'))
+                        while isinstance(i_, dict) and i_.get('k') == 'Construct' and len(i_.get('args', [])) == 1:
+                            i_ = strip_all_casts(i_['args'][0])
+                        if not (isinstance(i_, dict) and i_.get('k') == 'Call' and i_.get('fn') == 'logContainerContaining'):
+                            problems.append('the container the copy works on (%s) is not initialised from logContainerContaining(%s)' % (root.get('name'), pos))
             rep.ob('B7', '%s|copy@%s' % (short(fn['name']) + ('/container' if 'shared_ptr' in fn['sig'] else ''), len([1 for _ in range(ncopies)])),
                    not problems, rep.fn_site(fn, n['l']),
                    '%s: std::copy stays inside the container (offset = pos - filePosition, count <= uncompressedFileSize - offset)' % short(fn['name'])
